@@ -159,3 +159,20 @@ def _solver_is_sat(solver, *exprs):
 
 
 _sp.solver_is_sat = _solver_is_sat
+
+# 8 ---------------------------------------------------------------------------------------------
+# Short-circuiting: CrossHair may skip the body of any callee that carries a contract and return an arbitrary
+# symbolic value of its return type instead.  Its own model of repr() carries `post[]: True`, so repr() of a
+# concrete string was being replaced by an unconstrained symbolic string (seen in deduplicate_sorted_imports).
+# That is an over-approximation we do not want: every callee body is executed.
+PATCHES.append("short-circuiting of contract-carrying callees disabled (consider_shortcircuit -> None): every callee body runs")
+
+
+def _never_shortcircuit(fn, sig, bound, subconditions, allow_interpretation):
+    if not allow_interpretation:  # explicitly registered skip_body / specs_complete callees keep their behaviour
+        return _orig_consider_shortcircuit(fn, sig, bound, subconditions, allow_interpretation)
+    return None
+
+
+_orig_consider_shortcircuit = _core.consider_shortcircuit
+_core.consider_shortcircuit = _never_shortcircuit
